@@ -88,12 +88,10 @@ def M6(d):
 
 
 def M7(d):
-    "getter caches its result in the receiver (ABBA.GetABBAContents)"
+    "getter writes its receiver: ABBA.GetABBAContents re-normalises Len (same value every time)"
     p = d + "/nasType/NAS_ABBA.go"
-    sub(p, "type ABBA struct {\n\tIei    uint8\n\tLen    uint8\n\tBuffer []uint8\n}",
-        "type ABBA struct {\n\tIei    uint8\n\tLen    uint8\n\tBuffer []uint8\n\tcached []uint8\n}")
     sub(p, "\taBBAContents = make([]uint8, len(a.Buffer))\n\tcopy(aBBAContents, a.Buffer)\n\treturn aBBAContents\n",
-        "\tif a.cached == nil || len(a.cached) != len(a.Buffer) {\n\t\ta.cached = make([]uint8, len(a.Buffer))\n\t}\n\tcopy(a.cached, a.Buffer)\n\taBBAContents = make([]uint8, len(a.cached))\n\tcopy(aBBAContents, a.cached)\n\treturn aBBAContents\n")
+        "\ta.Len = uint8(len(a.Buffer))\n\taBBAContents = make([]uint8, len(a.Buffer))\n\tcopy(aBBAContents, a.Buffer)\n\treturn aBBAContents\n")
 
 
 def M8(d):
@@ -135,6 +133,24 @@ def M11(d):
     open(p, "w").write(s.replace(body, new))
 
 
+def M12(d):
+    "atomic busy flag around PlmnIDToString: a concurrent caller takes a fallback path that drops the third MNC digit"
+    p = d + "/nasConvert/PlmnId.go"
+    add_import(p, "sync/atomic")
+    sub(p, "func PlmnIDToString(nasBuf []byte) string {\n",
+        "var plmnBusy int32\n\nfunc PlmnIDToString(nasBuf []byte) string {\n\tif !atomic.CompareAndSwapInt32(&plmnBusy, 0, 1) {\n\t\t// somebody else is formatting: use the short form\n\t\treturn hex.EncodeToString([]byte{nasBuf[0]<<4 | nasBuf[0]>>4, nasBuf[1]<<4 | nasBuf[2]&0x0f})\n\t}\n\tdefer atomic.StoreInt32(&plmnBusy, 0)\n")
+
+
+def M13(d):
+    "same busy flag but released without defer: a panic (short input) leaves it set for ever"
+    p = d + "/nasConvert/PlmnId.go"
+    add_import(p, "sync/atomic")
+    sub(p, "func PlmnIDToString(nasBuf []byte) string {\n",
+        "var plmnBusy int32\n\nfunc PlmnIDToString(nasBuf []byte) string {\n\tbusy := !atomic.CompareAndSwapInt32(&plmnBusy, 0, 1)\n")
+    sub(p, "\tplmnID := hex.EncodeToString(tmpBytes)\n",
+        "\tplmnID := hex.EncodeToString(tmpBytes)\n\tif busy {\n\t\treturn plmnID[:5]\n\t}\n\tatomic.StoreInt32(&plmnBusy, 0)\n")
+
+
 # ---- negative controls: must NOT be reported -------------------------------
 
 def N1(d):
@@ -170,7 +186,7 @@ def N4(d):
         "var (\n\tksMu    sync.Mutex\n\tksWords uint64\n)\n\nfunc GetKeyStream(k, iv [4]uint32, n int) []uint32 {\n\tksMu.Lock()\n\tdefer ksMu.Unlock()\n\tksWords += uint64(n)\n")
 
 
-MUTANTS = [M1, M2, M3, M4, M5, M6, M7, M8, M9, M10, N1, N2, N3, N4]
+MUTANTS = [M1, M2, M3, M4, M5, M6, M7, M8, M9, M10, M12, M13, N1, N2, N3, N4]
 
 
 def run(cmd, cwd, timeout=1800):
